@@ -455,6 +455,34 @@ int main(int argc, char **argv) {
       for (auto &tr : g_trace) out << " " << tr;
       flushLine();
       for (int i = 0; i < n; i++) { out << results[i]; flushLine(); }
+    } else if (op == "params") {
+      // params route|access K (keyhex valhex)*K : L1 test of the parameter factories on a (key, value) list
+      std::string kind = nextTok();
+      int k = nextInt();
+      std::vector<std::pair<std::string, std::string>> kv;
+      auto unhex = [](const std::string &h) { std::string o; if (h == "-") return o; for (size_t i = 0; i + 1 < h.size(); i += 2) o.push_back((char)strtol(h.substr(i, 2).c_str(), nullptr, 16)); return o; };
+      for (int i = 0; i < k; i++) { std::string a = unhex(nextTok()); std::string b = unhex(nextTok()); kv.push_back({a, b}); }
+      g_kind = "params";
+      try {
+        if (kind == "route") {
+          RouteParameters p = RouteParameters::createRouteODParameter(kv, td.getScenarios());
+          out << "params ok " << p.getTimeOfTrip() << " " << p.getMinWaitingTimeSeconds() << " " << p.getMaxTotalTravelTimeSeconds() << " " << p.getMaxAccessWalkingTravelTimeSeconds() << " "
+              << p.getMaxEgressWalkingTravelTimeSeconds() << " " << p.getMaxTransferWalkingTravelTimeSeconds() << " " << p.getMaxFirstWaitingTimeSeconds() << " " << (p.isForwardCalculation() ? 1 : 0) << " "
+              << (p.isWithAlternatives() ? 1 : 0) << " " << idOfUuid(p.getScenario().uuid);
+        } else {
+          AccessibilityParameters p = AccessibilityParameters::createAccessibilityParameter(kv, td.getScenarios());
+          out << "params ok " << p.getTimeOfTrip() << " " << p.getMinWaitingTimeSeconds() << " " << p.getMaxTotalTravelTimeSeconds() << " " << p.getMaxAccessWalkingTravelTimeSeconds() << " "
+              << p.getMaxEgressWalkingTravelTimeSeconds() << " " << p.getMaxTransferWalkingTravelTimeSeconds() << " " << p.getMaxFirstWaitingTimeSeconds() << " " << (p.isForwardCalculation() ? 1 : 0) << " 0 "
+              << idOfUuid(p.getScenario().uuid);
+        }
+      } catch (ParameterException &e) {
+        out.str(""); out.clear();
+        out << "params err " << (int)e.getType();
+      } catch (std::exception &e) {
+        out.str(""); out.clear();
+        out << "params exn";
+      }
+      flushLine();
     } else if (op == "refresh") {
       // refresh <kind> dataset ... end : the files now encode the new dataset; kind 0 = all caches (the
       // /updateCache handler's order), 1 = schedules, 2 = scenarios then schedules
